@@ -19,11 +19,29 @@ def _atoms(c):
                      cell=(4.0, 4.0, float(c["nslices"])))
 
 
+def _sigmas(c):
+    """scalar sigma, or one sigma per element (dict keyed by chemical symbol)"""
+    if c.get("sigma_mode") == "per-element":
+        from ase.data import chemical_symbols
+        return {chemical_symbols[z]: c["sigma"] * (1 + 0.5 * i) for i, z in enumerate(sorted({a[0] for a in c["atoms"]}))}
+    return c["sigma"]
+
+
+def _seeds(c):
+    """the seed tuple of the case; with `seed_mode == "int"` the ensemble is given ONE integer and derives the tuple itself"""
+    import abtem
+
+    if c.get("seed_mode") == "int":
+        return tuple(int(s) for s in abtem.FrozenPhonons(_atoms(c), len(c["seeds"]), 0.1, seed=int(c["seeds"][0])).seed)
+    return tuple(c["seeds"])
+
+
 def _ensemble(c, ensemble_mean=False):
     """the frozen-phonon object of a case: FrozenPhonons (seeded) or AtomsEnsemble (explicit trajectory)"""
     import abtem
 
-    fp = abtem.FrozenPhonons(_atoms(c), len(c["seeds"]), c["sigma"], seed=tuple(c["seeds"]), ensemble_mean=ensemble_mean,
+    seed = int(c["seeds"][0]) if c.get("seed_mode") == "int" else tuple(c["seeds"])
+    fp = abtem.FrozenPhonons(_atoms(c), len(c["seeds"]), _sigmas(c), seed=seed, ensemble_mean=ensemble_mean,
                              directions=c.get("directions", "xyz"))
     if c["kind"] == "atoms_ensemble":
         return abtem.AtomsEnsemble(list(fp), ensemble_mean=ensemble_mean)
@@ -34,7 +52,7 @@ def _single_atoms(c, k):
     """configuration k built independently of any ensemble code path: one seed, one rng"""
     import abtem
 
-    one = abtem.FrozenPhonons(_atoms(c), 1, c["sigma"], seed=(c["seeds"][k],), directions=c.get("directions", "xyz"))
+    one = abtem.FrozenPhonons(_atoms(c), 1, _sigmas(c), seed=(_seeds(c)[k],), directions=c.get("directions", "xyz"))
     return one.randomize(one.atoms)
 
 
@@ -85,10 +103,11 @@ def gen_case(ctx: Ctx, stratum=-1):
         lazy = False
         seeds = rng.sample(range(1, 10 ** 6), rng.randint(2, 4))
         spec = [-1, n - 1] if n > 1 else 1
-    return dict(entry=entry, algorithm=algorithm,
+    return dict(seed_mode=rng.choice(["tuple", "tuple", "int"]), sigma_mode=rng.choice(["scalar", "scalar", "per-element"]),
+                entry=entry, algorithm=algorithm,
                 nslices=n, atoms=atoms, spec=spec, seeds=seeds, sigma=rng.choice([0.05, 0.1, 0.2]), builder=builder, det=det,
                 scan=scan, gpts=rng.choice([8, 12]), lazy=lazy, kind=kind_e,
-                mean=(rng.random() < 0.35 and det != "waves"), directions=rng.choice(["xyz", "xy"]))
+                mean=(rng.random() < 0.4), directions=rng.choice(["xyz", "xy"]))
 
 
 def _detector(c):
@@ -142,17 +161,20 @@ def _run(c, potential, lazy=False, entry=None):
     return r.compute(progress_bar=False) if lazy else r
 
 
+class LazyRaises(Exception):
+    pass
+
+
 def _run_defer(ctx, c, potential):
-    """run in the case's evaluation mode; a lazy run that raises although the eager run succeeds is a lazy/eager
-    discrepancy — C01's subject — and is counted, the property is then checked on the eager result"""
+    """run in the case's evaluation mode; a lazy run that raises although the eager run succeeds is reported (it is also a
+    lazy/eager discrepancy in the sense of C01)"""
     if not c["lazy"]:
         return _run(c, potential)
     try:
         return _run(c, potential, lazy=True)
     except Exception as e:  # noqa
-        r = _run(c, potential, lazy=False)
-        ctx.count("deferred-to-C01:lazy-raises-" + type(e).__name__ + "-eager-ok")
-        return r
+        _run(c, potential, lazy=False)  # raises as well -> reported as a failing run by the caller
+        raise LazyRaises(f"{type(e).__name__}: {e}"[:200])
 
 
 def _close(a, b):
@@ -298,7 +320,7 @@ class C02(Property):
         # seeds through _partition_args / generate_blocks / iteration
         import ase
         base = ase.Atoms("Si2", positions=[(1, 1, 0.5), (2, 3, 1.5)], cell=(4, 4, 2))
-        for it in range(ctx.n(60, 800)):
+        for it in range(ctx.n(60, 400)):
             n = rng.randint(1, 8)
             seeds = rng.sample(range(1, 10 ** 6), n)
             fp = abtem.FrozenPhonons(base, n, 0.1, seed=tuple(seeds))
@@ -342,7 +364,7 @@ class C02(Property):
                 impl = listlist_s([[int(x) for x in blk[1]] for blk in blocks])
                 add("CrystalPotential._partition_args", f"part {list_s(vc[0])} {list_s(seeds)}", "ok " + impl, case)
         # traced orchestration
-        for i in range(ctx.n(90, 900)):
+        for i in range(ctx.n(90, 500)):
             c = trace_case(rng)
             pot, configs, text = run_traced(c)
             configs = expected_ids(configs, c["algorithm"])
@@ -403,13 +425,15 @@ class C02(Property):
         # (3) ensemble_mean=True is the mean of the single runs
         if c["mean"]:
             resm = _run_defer(ctx, c, _potential(c, _ensemble(c, ensemble_mean=True)))
-            ok, why = _close(np.asarray(resm.array), np.mean(np.stack(singles), axis=0))
+            # complex exit waves are never averaged (the ensemble is kept); measurements are averaged over the configurations
+            expected = np.stack(singles) if c["det"] == "waves" else np.mean(np.stack(singles), axis=0)
+            ok, why = _close(np.asarray(resm.array), expected)
             if not ok:
-                ctx.violation("ensemble-mean-neq-mean-of-single-runs" + (":lazy" if c["lazy"] else ":eager"), c,
+                ctx.violation(("ensemble-mean-of-waves-neq-stack-of-single-runs" if c["det"] == "waves" else "ensemble-mean-neq-mean-of-single-runs") + (":lazy" if c["lazy"] else ":eager"), c,
                               {"what": why, "case": tag})
                 return
         # (4) processing order: reversing the seeds reverses the configurations
-        if len(confs) > 1 and c["kind"] == "frozen":
+        if len(confs) > 1 and c["kind"] == "frozen" and c.get("seed_mode", "tuple") == "tuple":
             c2 = dict(c); c2["seeds"] = list(reversed(c["seeds"]))
             res2 = np.asarray(_run_defer(ctx, c2, _potential(c2, _ensemble(c2))).array)
             ok, why = _close(res2[::-1], arr)
@@ -417,10 +441,12 @@ class C02(Property):
                 ctx.violation("result-depends-on-processing-order", c, {"what": why, "case": tag})
 
     def conformance(self, ctx: Ctx):
-        for i in range(ctx.n(24, 300)):
+        for i in range(ctx.n(24, 150)):
             c = gen_case(ctx, stratum=i % 6)
             try:
                 self.oracle(ctx, c)
+            except LazyRaises as e:
+                ctx.violation("lazy-frozen-phonon-run-raises-eager-ok", c, {"error": str(e)})
             except Exception as e:  # noqa
                 ctx.violation("frozen-phonon-run-raises:" + type(e).__name__, c, {"error": f"{type(e).__name__}: {e}"[:300]})
             ctx.count(f"numeric:{c['kind']}:{c['builder']}:{c['det']}:{'lazy' if c['lazy'] else 'eager'}:ncfg={len(c['seeds'])}:"
@@ -430,6 +456,8 @@ class C02(Property):
     def replay(self, ctx: Ctx, case):
         try:
             self.oracle(ctx, case)
+        except LazyRaises as e:
+            ctx.violation("lazy-frozen-phonon-run-raises-eager-ok", case, {"error": str(e)})
         except Exception as e:  # noqa
             ctx.violation("frozen-phonon-run-raises:" + type(e).__name__, case, {"error": f"{type(e).__name__}: {e}"[:300]})
 
